@@ -346,7 +346,7 @@ def opWhiten (zca : Bool) (a : List Int) (o : Option Obs) : String :=
               for k in [0:r] do
                 let lhs := rsum d fun j => WC i j * W k j
                 v := v.spec s!"W*Cov*W^T[{i},{k}]" lhs (if i = k then target else 0) (target * 100)
-          else v := v.tag "zca-singular(projector,oracle-only)"
+          else v := v.tag "zca-singular-projector-oracle-only"
           for i in [0:r] do
             let mb := -(rsum d fun j => W i j * mean bs j)
             v := v.spec s!"offset[{i}] = -W*mean" (gb[i]!.get) mb (wmax * (rsum d fun j => rabs (mean bs j)))
